@@ -18,6 +18,8 @@
 #include "upipe/uref.h"
 #include "upipe/uref_std.h"
 #include "upipe/uref_clock.h"
+#include "upipe/uref_flow.h"
+#include "upipe/uref_block.h"
 #include "seqx.h"
 
 static int g_ndom = 3;
@@ -332,6 +334,97 @@ static int c11_apply(void *p, int opi, bool check)
     return SEQX_OK;
 }
 
+/* ---- bystanders: operations on the same uref that are not clock operations (flags sharing the word that holds the
+ * date types, the private field, dictionary attributes) must change none of the twelve dates nor the three delays.
+ * Run once per distinct state on a duplicate (set, then delete), so they do not multiply the state space. ---- */
+static void by_set_end(struct uref *u) { uref_flow_set_end(u); }
+static void by_del_end(struct uref *u) { uref_flow_delete_end(u); }
+static void by_set_disc(struct uref *u) { uref_flow_set_discontinuity(u); }
+static void by_del_disc(struct uref *u) { uref_flow_delete_discontinuity(u); }
+static void by_set_random(struct uref *u) { uref_flow_set_random(u); }
+static void by_del_random(struct uref *u) { uref_flow_delete_random(u); }
+static void by_set_error(struct uref *u) { uref_flow_set_error(u); }
+static void by_del_error(struct uref *u) { uref_flow_delete_error(u); }
+static void by_set_start(struct uref *u) { uref_block_set_start(u); }
+static void by_del_start(struct uref *u) { uref_block_delete_start(u); }
+static void by_set_bend(struct uref *u) { uref_block_set_end(u); }
+static void by_del_bend(struct uref *u) { uref_block_delete_end(u); }
+static void by_set_ref(struct uref *u) { uref_clock_set_ref(u); }
+static void by_del_ref(struct uref *u) { uref_clock_delete_ref(u); }
+static void by_set_def(struct uref *u) { (void)uref_flow_set_def(u, "block."); }
+static void by_del_def(struct uref *u) { (void)uref_flow_delete_def(u); }
+static void by_set_priv(struct uref *u) { u->priv = 5; }
+static void by_del_priv(struct uref *u) { u->priv = UINT64_MAX; }
+static void by_set_rate(struct uref *u) { (void)uref_clock_set_rate(u, (struct urational){1, 2}); }
+static void by_del_rate(struct uref *u) { (void)uref_clock_delete_rate(u); }
+static void by_set_dur(struct uref *u) { (void)uref_clock_set_duration(u, 7); }
+static void by_del_dur(struct uref *u) { (void)uref_clock_delete_duration(u); }
+static const struct {
+    const char *name;
+    void (*set)(struct uref *);
+    void (*del)(struct uref *);
+} BY[] = {{"flow_end", by_set_end, by_del_end}, {"flow_discontinuity", by_set_disc, by_del_disc}, {"flow_random", by_set_random, by_del_random},
+          {"flow_error", by_set_error, by_del_error}, {"block_start", by_set_start, by_del_start}, {"block_end", by_set_bend, by_del_bend},
+          {"clock_ref", by_set_ref, by_del_ref}, {"flow_def", by_set_def, by_del_def}, {"priv", by_set_priv, by_del_priv},
+          {"clock_rate", by_set_rate, by_del_rate}, {"clock_duration", by_set_dur, by_del_dur}};
+
+struct full {
+    struct snap sn;
+    bool hd[3];
+    uint64_t d[3];
+};
+static void take_full(struct uref *u, struct full *f)
+{
+    take(u, &f->sn);
+    f->d[0] = f->d[1] = f->d[2] = 0;
+    f->hd[0] = ubase_check(uref_clock_get_dts_pts_delay(u, &f->d[0]));
+    f->hd[1] = ubase_check(uref_clock_get_cr_dts_delay(u, &f->d[1]));
+    f->hd[2] = ubase_check(uref_clock_get_rap_cr_delay(u, &f->d[2]));
+}
+static const char *full_diff(const struct full *a, const struct full *b, char *buf, size_t n)
+{
+    int dd, ww;
+    if (!snap_eq(&a->sn, &b->sn, &dd, &ww)) {
+        snprintf(buf, n, "get_%s_%s went from %s%llx to %s%llx", tn[ww], dn[dd], a->sn.ok[dd][ww] ? "" : "(unreadable) ",
+                 (unsigned long long)a->sn.v[dd][ww], b->sn.ok[dd][ww] ? "" : "(unreadable) ", (unsigned long long)b->sn.v[dd][ww]);
+        return buf;
+    }
+    for (int k = 0; k < 3; k++)
+        if (a->hd[k] != b->hd[k] || (a->hd[k] && a->d[k] != b->d[k])) {
+            snprintf(buf, n, "delay %d went from %s%llx to %s%llx", k, a->hd[k] ? "" : "(unset) ", (unsigned long long)a->d[k],
+                     b->hd[k] ? "" : "(unset) ", (unsigned long long)b->d[k]);
+            return buf;
+        }
+    return NULL;
+}
+
+static int c11_sweep(void *p)
+{
+    struct st *s = p;
+    struct full before, after;
+    char why[200], sig[96];
+    take_full(s->u, &before);
+    for (unsigned b = 0; b < sizeof(BY) / sizeof(BY[0]); b++) {
+        struct uref *n = uref_dup(s->u);
+        if (!n)
+            SEQX_FAIL("dup:failed", "uref_dup failed");
+        for (int phase = 0; phase < 3; phase++) { /* set ; delete ; delete again (absent) */
+            if (phase == 0)
+                BY[b].set(n);
+            else
+                BY[b].del(n);
+            take_full(n, &after);
+            if (full_diff(&before, &after, why, sizeof(why))) {
+                snprintf(sig, sizeof(sig), "bystander:%s-%s:changed-a-date", phase == 0 ? "set" : "delete", BY[b].name);
+                uref_free(n);
+                SEQX_FAIL(sig, "%s of %s on the buffer: %s", phase == 0 ? "setting" : "deleting", BY[b].name, why);
+            }
+        }
+        uref_free(n);
+    }
+    return SEQX_OK;
+}
+
 static void c11_canon(void *p, struct vbuf *out)
 {
     struct st *s = p;
@@ -375,6 +468,7 @@ int main(int argc, char **argv)
         .fini = c11_fini,
         .opstr = c11_opstr,
         .nontrivial = c11_nontrivial,
+        .sweep = c11_sweep,
     };
     int r = seqx_main(&spec, argc, argv, depth);
     v_stat("alphabet", g_nops);
